@@ -227,9 +227,43 @@ def judge(ctx, case):
         ctx.mark_nontrivial(dg(case))
 
 
+def recursion_error_case(rng):
+    """a function that calls itself inside a TRY; an INNER activation raises
+    after some instructions, an outer activation catches it and must go on
+    with its own next instruction (marker pushes before and after the failing
+    point make a lost place visible). The nesting depth at which it happens
+    is set by the call-stack limit."""
+    P, O = vmprogs.P, vmprogs.O
+    h = rng.choice((0, 3, 200))
+    key = rng.choice((b'q', b'cnt'))
+    mark = lambda t: P(t + bytes([rng.randrange(256)]))
+    wrap_call = rng.choice((
+        lambda c: isa.TRY(c, b''),
+        lambda c: isa.TRY(c, P(b'caught') + O('POP0')),
+        lambda c: isa.TRY(O('TRUE') + isa.IF(c), b''),
+        lambda c: isa.TRY(isa.TRY(c + O('FALSE') + O('VERIFY'),
+                                  O('FALSE') + O('VERIFY')), b'')))
+    fail = rng.choice((
+        # raises in the activation that gets here FIRST (the innermost one
+        # that runs), passes in the ones that come later
+        O('READ_CACHE_SIZE') + bytes([len(key)]) + key + O('TRUE')
+        + O('WRITE_CACHE') + bytes([len(key)]) + key + b'\x01' + O('VERIFY'),
+        O('READ_CACHE_SIZE') + bytes([len(key)]) + key + O('TRUE')
+        + O('WRITE_CACHE') + bytes([len(key)]) + key + b'\x01'
+        + isa.push(b'\x01') + O('EQUAL_VERIFY')))
+    body = wrap_call(isa.CALL(h)) + mark(b'M') + fail + mark(b'Z') \
+        + rng.choice((b'', O('DEPTH') + O('POP0')))
+    prog = isa.DEF(h, body) + isa.CALL(h) + mark(b'end')
+    return {'prog': prog, 'kind': 'recursion-error', 'cache': {},
+            'flags': {}, 'plugset': 0, 'max_items': 1024,
+            'max_item_size': 1024, 'limit': rng.choice((2, 2, 3, 4))}
+
+
 def run_shard(spec, ctx):
     i, of = spec['shard'], spec['of']
     n = NPROG[ctx.tier] // of
+    for j in range(max(4, n // 400)):
+        judge(ctx, recursion_error_case(ctx.rng(('rec', j))))
     for j in range(n):
         case = gen_case(ctx.rng(j))
         judge(ctx, case)
